@@ -110,7 +110,7 @@ prop("C16", "TestC16", "exploration",
      "or a must-reject verdict; distinct = hash of the byte stream + kind",
      q, t, required_labels=["kind:layout", "kind:blank", "kind:corrupt", "spec:accept", "spec:reject", "spec:free"])
 
-q, t = tiers(8, 5000, 16, 40000, floor_q=5000, floor_t=50000, q_timeout=400)
+q, t = tiers(8, 2500, 16, 30000, floor_q=5000, floor_t=50000, q_timeout=600, t_timeout=3000)
 prop("C01", "TestC01", "exploration",
      "rapid generates a reference (6..60 nt, thorough 400; occasionally with IUPAC codes) and 1..5 queries of 1..3 (thorough 5) records each. "
      "Every record is built from a per-query truth row: CIGAR over M,=,X,I,D,N,P with optional H/S/HS clips, lengths 1..6 (rare long ones), placed at any "
